@@ -7,7 +7,7 @@ import layout
 import rule_scopes
 
 from mirlib import AnchorMissing, path_matches, op_place, place_projs
-from helpers import (arm, aggregates, enum_switches, must_pass, vexpr, loop_of, origin_calls, calls_matching, sources_of)
+from helpers import (closure_of_arg, arm, aggregates, enum_switches, must_pass, vexpr, loop_of, origin_calls, calls_matching, sources_of)
 
 EXPLANATION = (
     'Static decision of the structural clauses of C16 on the MIR of slicec: (1) compute/apply agreement of the link patcher: both loops of '
@@ -340,7 +340,19 @@ def r_newlines_preserved(r, prog):
         r.ok('both arms (text line / empty line) end the line with a newline component')
     else:
         r.finding('line-breaks-dropped', f.span, 'sanitize_message_lines does not append a newline for both non-empty and empty lines (%d newline constant(s))' % nl)
-    r.floor(1)
+    # ... and every line that was written gets there: the vector of lines is mapped as it came in, nothing is popped, cut or filtered first
+    top = prog.fns.get(f.path.rsplit('::', 1)[0])
+    if top is None:
+        raise AnchorMissing('sanitize_message_lines')
+    CUT = re.compile(r'^(pop|truncate|retain(_mut)?|drain|remove|swap_remove|split_off|dedup(_by(_key)?)?|filter|filter_map|skip|skip_while|take|take_while|step_by|clear|trim_end_matches|split_last|split_first|rposition)$')
+    cuts = [c for c in top.calls() if CUT.match(c.name()) and not top.blocks[c.bb].get('cleanup')]
+    mapped = [c for c in top.calls() if c.name() in ('map', 'flat_map') and closure_of_arg(prog, top, c.args[1]) is f]
+    if cuts or not mapped or not re.match(r'^into_iter\(arg1\)$', vexpr(top, mapped[0].args[0])):
+        r.finding('written-lines-dropped', top.span, 'sanitize_message_lines %s before turning the lines into the message: written lines (blank lines between or after paragraphs are lines) are lost' % (
+            ('calls %s' % sorted({c.name() for c in cuts})) if cuts else 'does not map the lines it was given (%s)' % [vexpr(top, c.args[0])[:60] for c in mapped]))
+    else:
+        r.ok('every line handed to sanitize_message_lines is mapped to its text and a line break (nothing popped, cut or filtered)')
+    r.floor(2)
 
 
 def r_return_shapes(r, prog):
